@@ -221,6 +221,7 @@ size_t ZSTD_sizeof_DCtx (const ZSTD_DCtx* dctx)
     if (dctx==NULL) return 0;   /* support sizeof NULL */
     return sizeof(*dctx)
            + ZSTD_sizeof_DDict(dctx->ddictLocal)
+           + (dctx->ddictSet ? sizeof(*dctx->ddictSet) + dctx->ddictSet->ddictPtrTableSize * sizeof(ZSTD_DDict*) : 0)
            + dctx->inBuffSize + dctx->outBuffSize;
 }
 
